@@ -255,6 +255,10 @@ m("parsetree-ite-then-else-swapped", ["C14"], "src/parser_io.rs",
   """                            .position(|n| n == t.as_ref())""",
   """                            .position(|n| n == e.as_ref())""",
   "parse-tree export: Then edge points at the else branch")
+m("row-padding-by-runtime-width", ["C12"], "src/bin/rsbdd.rs",
+  'print!(" {} |", pad_to(&label.to_string(), widths[i]));',
+  'print!(" {:indent$} |", label, indent = widths[i]);',
+  "table rows padded through a run-time width argument again (panics above u16::MAX: variable names of 65 536 bytes; defect D9 half-reverted)")
 m("table-filter-inverted", ["C10", "C07"], "src/bin/rsbdd.rs",
   """            || (filter == TruthTableEntry::True && *c == BDD::True)
             || (filter == TruthTableEntry::False && *c == BDD::False) =>
